@@ -1,0 +1,21 @@
+//go:build verif
+
+package controllers
+
+import (
+	"time"
+
+	"github.com/oxia-db/oxia/coordinator/model"
+	"github.com/oxia-db/oxia/proto"
+)
+
+// Thin exports for the /verif correspondence harness (property C05). No logic.
+
+// VerifSelectNewLeader exposes selectNewLeader.
+func VerifSelectNewLeader(newTermResponses map[model.Server]*proto.EntryId) (
+	leader model.Server, followers map[model.Server]*proto.EntryId) {
+	return selectNewLeader(newTermResponses)
+}
+
+// VerifQuorumFencingGracePeriod exposes the (constant) grace period of newTermQuorum.
+const VerifQuorumFencingGracePeriod time.Duration = quorumFencingGracePeriod
